@@ -146,6 +146,14 @@ def run(ctx):
     scs.append({"root": "root", "tree": {"a.txt": "1", "m/bad\x01name.txt": "2", "z.txt": "3"}, "ops": [{"op": "create", "at": "", "h": ["md5"]}, {"op": "create", "at": "", "h": ["c4"], "sf": ["a.txt"]}]})
     scs.append({"root": "root", "tree": {"a.txt": "1", "z.txt": "3"}, "ops": [{"op": "create", "at": "", "h": ["md5"]}, {"op": "create", "at": "", "h": ["md5"], "comment": "bell \x07 in a comment"}, {"op": "create", "at": "", "h": ["sha1"], "location": "vt \x0b"}, {"op": "create", "at": "", "h": ["sha1"]}]})
     r = pool.run_pool(scs, monitor=collect, with_model=False)
+    # a host without a name (platform.node() gives an empty string): the element the schema requires is still written
+    try:
+        import platform
+        from unittest import mock
+        with mock.patch.object(platform, "node", return_value=""):
+            pool.run_pool([{"root": "root", "tree": {"a.txt": "1", "s/b.txt": "2"}, "ops": [{"op": "create", "at": "s", "h": ["md5"]}, {"op": "create", "at": "", "h": ["md5"], "comment": "no host name"}, {"op": "flatten", "at": ""}]}], monitor=collect, with_model=False)
+    except Exception as e:
+        ctx.notes.append(f"empty host name case not run: {e!r}")
     evals = 0
     invalid = 0
     for sha, (kind, b, origin) in files.items():
